@@ -4,6 +4,8 @@ import SpecterModel.C31.Props
 # C32 — Client certificates carry a stable identity that only the key holder can renew
 
 * `extract_makeV2`, `issued_subject_parses` — every subject built by `MakeSubjectV2` yields the identity (token = whole subject, id, v2), no panic
+* `extract_makeV1`, `v1_token_roundtrip` — every subject built by `MakeSubjectV1` yields (the WHOLE legacy token, id, v1), separators inside the token included
+* `issued_extract_ok`, `issued_identity_unique` — over all issued subjects (v1 or v2) the identity is a function of, and unique to, the subject
 * `token_injective`, `identity_bound_to_key` — the token determines id and `b64(sha256 pubkey)`; with injective base64 it determines the key hash
 * `request_identity` — what `RequestCertificate` issues
 * `renew_iff` — exact success condition of `RenewCertificate`; `renew_preserves_identity`, `v1_rejected`, `foreign_ca_rejected`,
@@ -52,6 +54,53 @@ theorem extract_makeV2 (b64 : Bytes → Bytes) (id : Nat) (hid : id < 2^64) (has
 theorem issued_subject_parses (b64 : Bytes → Bytes) (id : Nat) (hid : id < 2^64) (hash : Bytes) :
     extract (makeSubjectV2 b64 id hash) ≠ .panic := by
   rw [extract_makeV2 b64 id hid hash]; intro h; cases h
+
+/-- Every subject made by `MakeSubjectV1` (id a uint64, ANY legacy token — it may itself contain the separator) is parsed
+back to exactly that token, that id, version 1: only the first two separators delimit fields. -/
+theorem extract_makeV1 (id : Nat) (hid : id < 2^64) (tok : Bytes) :
+    extract (makeSubjectV1 id tok) = .ok { token := tok, id := id, version := .v1 } := by
+  unfold extract
+  rw [show splitN3 (makeSubjectV1 id tok) = [v1, dec id, tok] from
+    splitN3_join _ _ _ v1_nocolon (colon_not_digit id)]
+  simp [parseUint64_dec id hid]
+
+/-- the subjects the statement quantifies over: built by `MakeSubjectV1` / `MakeSubjectV2` with a uint64 id -/
+inductive Issued (b64 : Bytes → Bytes) : Bytes → Prop
+  | v1 (id : Nat) (hid : id < 2^64) (tok : Bytes) : Issued b64 (makeSubjectV1 id tok)
+  | v2 (id : Nat) (hid : id < 2^64) (hash : Bytes) : Issued b64 (makeSubjectV2 b64 id hash)
+
+/-- every issued subject yields an identity (no error, no panic) -/
+theorem issued_extract_ok (b64 : Bytes → Bytes) (s : Bytes) (h : Issued b64 s) : ∃ i, extract s = .ok i := by
+  cases h with
+  | v1 id hid tok => exact ⟨_, extract_makeV1 id hid tok⟩
+  | v2 id hid hash => exact ⟨_, extract_makeV2 b64 id hid hash⟩
+
+/-- **The identity is unique to the subject**: two issued subjects (v1 or v2, any tokens — separators inside a legacy
+token included) with the same extracted identity are the same subject. -/
+theorem issued_identity_unique (b64 : Bytes → Bytes) (s s' : Bytes) (h : Issued b64 s) (h' : Issued b64 s')
+    (e : extract s = extract s') : s = s' := by
+  cases h with
+  | v1 id hid tok =>
+    cases h' with
+    | v1 id' hid' tok' =>
+      rw [extract_makeV1 id hid tok, extract_makeV1 id' hid' tok'] at e
+      simp at e; rw [e.1, e.2]
+    | v2 id' hid' hash' =>
+      rw [extract_makeV1 id hid tok, extract_makeV2 b64 id' hid' hash'] at e
+      simp at e
+  | v2 id hid hash =>
+    cases h' with
+    | v1 id' hid' tok' =>
+      rw [extract_makeV2 b64 id hid hash, extract_makeV1 id' hid' tok'] at e
+      simp at e
+    | v2 id' hid' hash' =>
+      rw [extract_makeV2 b64 id hid hash, extract_makeV2 b64 id' hid' hash'] at e
+      simp at e; exact e.1
+
+/-- legacy tokens sharing a prefix up to a separator stay distinct: the v1 token is the WHOLE third field -/
+theorem v1_token_roundtrip (id : Nat) (hid : id < 2^64) (tok : Bytes) (i : Identity)
+    (h : extract (makeSubjectV1 id tok) = .ok i) : makeSubjectV1 i.id i.token = makeSubjectV1 id tok ∧ i.version = .v1 := by
+  rw [extract_makeV1 id hid tok] at h; cases h; exact ⟨rfl, rfl⟩
 
 /-- A v2 identity's token is the certificate subject itself: tokens coincide exactly when subjects do. -/
 theorem v2_token_is_subject (cn : Bytes) (i : Identity) (h : extract cn = .ok i) (hv : i.version = .v2) : i.token = cn := by
@@ -211,6 +260,13 @@ def cnEx : Bytes := makeSubjectV2 b64I 42 [1, 2, 3]     -- "v2:42:BCD"
 example : extract cnEx = .ok { token := cnEx, id := 42, version := .v2 } := extract_makeV2 b64I 42 (by omega) _
 example : extract (makeSubjectV1 7 [120, 58, 121]) = .ok { token := [120, 58, 121], id := 7, version := .v1 } := by
   rw [makeSubjectV1, C31.dec_small 7 (by omega)]; decide
+-- "v1:7:x:y" and "v1:7:x:z": tokens share the prefix up to the separator, identities stay distinct
+example : extract (makeSubjectV1 7 [120, 58, 121]) ≠ extract (makeSubjectV1 7 [120, 58, 122]) := fun e => by
+  have := issued_identity_unique b64I _ _ (.v1 7 (by omega) _) (.v1 7 (by omega) _) e
+  rw [makeSubjectV1, makeSubjectV1, C31.dec_small 7 (by omega)] at this; revert this; decide
+example : ∃ i, extract (makeSubjectV1 7 [58, 58]) = .ok i := issued_extract_ok b64I _ (.v1 7 (by omega) _)
+example : makeSubjectV1 (⟨[120, 58, 121], 7, .v1⟩ : Identity).id [120, 58, 121] = makeSubjectV1 7 [120, 58, 121] :=
+  (v1_token_roundtrip 7 (by omega) [120, 58, 121] ⟨[120, 58, 121], 7, .v1⟩ (extract_makeV1 7 (by omega) _)).1
 example : extract [118, 50, 58, 120, 58, 121] = .panic := by decide
 example : extract [118, 51, 58, 49, 58, 121] = .unknown := by decide
 example : extract [118, 50, 58, 49] = .format := by decide
